@@ -8,6 +8,7 @@ exit 1  VIOLATION property=<id> replay=<path> [... no-failing-input-found]
 exit 2  UNDECIDED (anchor lost, unsupported construct, timeout, tool crash, proof needs repair)
 """
 import argparse
+import resource
 import atexit
 import hashlib
 import json
@@ -32,6 +33,20 @@ ASSUME_SCAN_RE = re.compile(r'assume_specification|external_body|\bassume\s*\(|\
 
 def log(*a):
     print(*a, flush=True)
+
+
+def _big_stack():
+    # CBMC recurses deeply on large enums (measured: SIGSEGV at the default 8 MB stack)
+    try:
+        resource.setrlimit(resource.RLIMIT_STACK, (resource.RLIM_INFINITY, resource.RLIM_INFINITY))
+    except (ValueError, OSError):
+        pass
+    # and can then eat all memory: cap the address space of each tool process
+    try:
+        lim = int(os.environ.get('VERIF_MEM_GB', '24')) << 30
+        resource.setrlimit(resource.RLIMIT_AS, (lim, lim))
+    except (ValueError, OSError):
+        pass
 
 
 class Scratch:
@@ -253,6 +268,23 @@ def verus_unit(unit, scratch, prop):
 # Kani
 # ---------------------------------------------------------------------------------------------
 HARNESS_META_RE = re.compile(r'//\s*@harness\s+(.*)')
+STEPS_RE = re.compile(r'^\s*//\s*@steps\s+(.*)$', re.M)
+
+
+def expand_steps(text, tier, subst):
+    """`// @steps name=.. props=.. fn=.. call=f [ns=quick:2;thorough:1,2,3,4] [bound=".."] [unwind=K]` -> one harness per table size n"""
+    gen = []
+    for m in STEPS_RE.finditer(text):
+        _, o = weave.parse_opts(weave.split_directive(m.group(1)))
+        ns = registry.STEP_NS
+        if 'ns' in o:
+            ns = dict((part.split(':')[0], [int(x) for x in part.split(':')[1].split(',')]) for part in o['ns'].split(';'))
+        for n in ns.get(tier, ns.get('quick')):
+            bound = o.get('bound', 'table size max_inflight = {n}; topic/payload empty').replace('{n}', str(n))
+            gen.append('// @harness props=%s tier=%s kind=%s bound="%s" fn=%s\n#[kani::proof]\n#[kani::unwind(%s)]\n%sfn %s_n%d() {\n    %s(%d);\n}\n' % (
+                o['props'], tier, o.get('kind', 'bounded'), bound, o['fn'], o.get('unwind', n + 4),
+                ''.join('#[kani::stub(%s)]\n' % x for x in o.get('stubs', '').split(';') if x), o['name'], n, o['call'], n))
+    return text + '\n// ---- generated from @steps directives ----\n' + '\n'.join(gen)
 
 
 def parse_harness_file(path):
@@ -307,7 +339,9 @@ def kani_crate(crate, prop, tier, scratch, only=None):
             text = f.read()
         for k, v in subst.items():
             text = text.replace('@%s@' % k, str(v))
-        with open(os.path.join(vk, hfile), 'w', encoding='utf-8') as f:
+        text = expand_steps(text, tier, subst)
+        gen_path = os.path.join(vk, hfile)
+        with open(gen_path, 'w', encoding='utf-8') as f:
             f.write(text)
         target = os.path.join(ws, crate, srcfile)
         if not os.path.exists(target):
@@ -317,12 +351,12 @@ def kani_crate(crate, prop, tier, scratch, only=None):
         with open(target, 'a', encoding='utf-8') as f:
             f.write('\n#[cfg(kani)]\nmod %s {\n    #![allow(unused, dead_code)]\n    use super::*;\n    include!(concat!(env!("CARGO_MANIFEST_DIR"), "/verif_kani/%s"));\n}\n' % (modname, hfile))
         modpath = cfg['modpath'](srcfile)
-        for h in parse_harness_file(hp):
+        for h in parse_harness_file(gen_path):
             if prop not in h['props']:
                 continue
             if h.get('tier', 'quick') == 'thorough' and tier != 'thorough':
                 continue
-            if h.get('tier') == 'quickonly' and tier == 'thorough':
+            if h.get('tier') == 'quick' and tier == 'thorough' and h.get('generated'):
                 continue
             full = '%s::%s::%s' % (modpath, modname, h['name']) if modpath else '%s::%s' % (modname, h['name'])
             if only and h['name'] not in only:
@@ -350,7 +384,7 @@ def kani_crate(crate, prop, tier, scratch, only=None):
     env['CARGO_TARGET_DIR'] = os.path.join(CACHE, 'kani-target')
     t0 = time.time()
     try:
-        p = subprocess.run(cmd, cwd=ws, env=env, capture_output=True, text=True, timeout=registry.KANI_TOTAL_TIMEOUT[tier])
+        p = subprocess.run(cmd, cwd=ws, env=env, capture_output=True, text=True, timeout=registry.KANI_TOTAL_TIMEOUT[tier], preexec_fn=_big_stack)
         out = p.stdout + '\n' + p.stderr
     except subprocess.TimeoutExpired as e:
         res['status'] = 'undecided'
@@ -386,10 +420,10 @@ def kani_crate(crate, prop, tier, scratch, only=None):
             hres['status'] = 'Crash'
             res['hard'].append(dict(kind='tool', msg='%s: CBMC/Kani did not finish (%s)' % (meta['name'], e.get('exit_status'))))
         for c in failed:
-            desc = c.get('description', '')
+            desc = c.get('description', '').strip().strip('"')
             m = re.match(r'\s*((?:C\d{2,3})(?:,C\d{2,3})*)\s+(\S+)', desc)
             loc = c.get('location') or {}
-            f = dict(harness=meta['name'], full=hid, desc=desc, function=c.get('function'),
+            f = dict(harness=meta['name'], full=hid, desc=desc, function=c.get('function'), harness_file=meta.get('file'),
                      location='%s:%s' % ((loc.get('file') or '').replace(ws + '/', ''), loc.get('line')))
             if m:
                 f['props'] = m.group(1).split(',')
@@ -421,27 +455,168 @@ def kani_crate(crate, prop, tier, scratch, only=None):
     return res
 
 
-def kani_playback(crate, failure, scratch, tier):
-    """re-run one failing harness with --concrete-playback=print and return the generated unit test text"""
+def kani_confirm(crate, failures, scratch, tier, max_harnesses=3):
+    """Counterexample replay: re-run the failing harnesses with --concrete-playback=print, append the
+    generated unit tests to the harness module of the scratch copy and execute them NATIVELY against
+    the real crate code (`cargo kani playback`).  Returns {failure name: dict(test=..., native=...)}"""
     ws = prepare_kani_ws(scratch)
-    cmd = ['cargo', 'kani', '-p', crate, '-Z', 'function-contracts', '-Z', 'stubbing', '-Z', 'unstable-options', '-Z', 'concrete-playback',
-           '--concrete-playback=print', '--exact', '--harness', failure['full'], '--harness-timeout', '%ds' % registry.HARNESS_TIMEOUT[tier]]
+    by_h = {}
+    for f in failures:
+        by_h.setdefault(f['full'], []).append(f)
+    chosen = list(by_h)[:max_harnesses]
     env = dict(os.environ)
     env['CARGO_NET_OFFLINE'] = 'true'
     env['CARGO_TARGET_DIR'] = os.path.join(CACHE, 'kani-target')
+    base = ['cargo', 'kani', '-p', crate, '-Z', 'function-contracts', '-Z', 'stubbing', '-Z', 'unstable-options', '-Z', 'concrete-playback',
+            '--concrete-playback=print', '--exact', '--harness-timeout', '%ds' % registry.HARNESS_TIMEOUT[tier]]
+    out = {}
+    # --concrete-playback is incompatible with --jobs: one process per harness, run side by side
+    procs = [subprocess.Popen(base + ['--harness', h], cwd=ws, env=env, stdout=subprocess.PIPE, stderr=subprocess.DEVNULL, text=True, preexec_fn=_big_stack) for h in chosen]
+    stdout_all = ''
+    deadline = time.time() + registry.KANI_TOTAL_TIMEOUT[tier]
+    for pr in procs:
+        try:
+            o, _ = pr.communicate(timeout=max(1, deadline - time.time()))
+            stdout_all += o
+        except subprocess.TimeoutExpired:
+            pr.kill()
+
+    class _P:
+        pass
+    p = _P()
+    p.stdout = stdout_all
+    tests = re.findall(r'```\s*\n(/// Test generated for harness `([^`]+)`.*?)```', p.stdout, re.S)
+    appended = {}
+    for text, hid in tests:
+        cm = re.search(r'Check for `(\w+)`: "+(.*?)"+\s*\n', text)
+        if not cm or cm.group(1) != 'assertion':
+            continue
+        desc = cm.group(2)
+        tn = re.search(r'fn (kani_concrete_playback_\w+)\(', text)
+        for f in by_h.get(hid, []):
+            if f['desc'].strip('"') == desc.strip('"') and f['name'] not in out:
+                out[f['name']] = dict(test=text, test_name=tn.group(1) if tn else None, native=None)
+                hf = f.get('harness_file')
+                if hf and tn:
+                    appended.setdefault(hf, []).append(text)
+    if not appended:
+        return out
+    for hf, texts in appended.items():
+        with open(os.path.join(ws, crate, 'verif_kani', hf), 'a', encoding='utf-8') as fh:
+            fh.write('\n' + '\n'.join(texts))
+    try:
+        q = subprocess.run(['cargo', 'kani', 'playback', '-Z', 'concrete-playback', '-p', crate, '--', 'kani_concrete_playback'],
+                           cwd=ws, env=env, capture_output=True, text=True, timeout=1500)
+        native = q.stdout + q.stderr
+    except subprocess.TimeoutExpired:
+        native = ''
+    for name, d in out.items():
+        if d['test_name']:
+            m = re.search(r"---- \S*%s stdout ----\n(.*?)(?:\nstack backtrace|\n----|\nfailures:)" % re.escape(d['test_name']), native, re.S)
+            failed = re.search(r'test \S*%s \.\.\. FAILED' % re.escape(d['test_name']), native)
+            if failed:
+                d['native'] = (m.group(1).strip() if m else 'test FAILED').replace(ws + '/', '')
+    return out
+
+
+# ---------------------------------------------------------------------------------------------
+# native bounded stand-ins (exhaustive enumeration of a stated finite space on the real code)
+# ---------------------------------------------------------------------------------------------
+NATIVE_META_RE = re.compile(r'//\s*@native\s+(.*)')
+
+
+def parse_native_file(path):
+    res = []
+    with open(path, encoding='utf-8') as f:
+        lines = f.read().split('\n')
+    for i, ln in enumerate(lines):
+        m = NATIVE_META_RE.match(ln.strip())
+        if not m:
+            continue
+        _, opts = weave.parse_opts(weave.split_directive(m.group(1)))
+        for j in range(i + 1, min(i + 8, len(lines))):
+            fm = re.match(r'\s*(?:pub\s+)?fn\s+([A-Za-z0-9_]+)\s*\(', lines[j])
+            if fm:
+                opts['name'] = fm.group(1)
+                opts['props'] = opts.get('props', '').split(',')
+                res.append(opts)
+                break
+    return res
+
+
+def native_crate(crate, prop, tier, scratch):
+    cfg = registry.NATIVE[crate]
+    ws = prepare_kani_ws(scratch)
+    res = dict(unit='native:' + crate, engine='native', status='ok', tests=[], failures=[], hard=[], notes=[])
+    vd = os.path.join(ws, crate, 'verif_native')
+    os.makedirs(vd, exist_ok=True)
+    names = []
+    metas = {}
+    for srcfile, nfile, modname in cfg['modules']:
+        src = os.path.join(VERIF, 'native', crate, nfile)
+        sel = [t for t in parse_native_file(src) if prop in t['props'] and not (t.get('tier') == 'thorough' and tier != 'thorough')]
+        if not sel:
+            continue
+        shutil.copy(src, os.path.join(vd, nfile))
+        target = os.path.join(ws, crate, srcfile)
+        if not os.path.exists(target):
+            res['status'] = 'undecided'
+            res['hard'].append(dict(kind='weave', msg='source file missing: %s/%s' % (crate, srcfile)))
+            return res
+        marker = 'mod %s {' % modname
+        with open(target, encoding='utf-8') as f:
+            already = marker in f.read()
+        if not already:
+            with open(target, 'a', encoding='utf-8') as f:
+                f.write('\n#[cfg(test)]\nmod %s {\n    #![allow(unused, dead_code)]\n    use super::*;\n    include!(concat!(env!("CARGO_MANIFEST_DIR"), "/verif_native/%s"));\n}\n' % (modname, nfile))
+        for t in sel:
+            t['srcfile'] = '%s/%s' % (crate, srcfile)
+            names.append(t['name'])
+            metas[t['name']] = t
+    if not names:
+        res['status'] = 'undecided'
+        res['hard'].append(dict(kind='vacuous', msg='no native test selected for %s in %s' % (prop, crate)))
+        return res
+    env = dict(os.environ)
+    env['CARGO_NET_OFFLINE'] = 'true'
+    env['CARGO_TARGET_DIR'] = os.path.join(CACHE, 'native-target')
+    for k, v in registry.NATIVE_ENV.get(tier, {}).items():
+        env[k] = str(v)
+    cmd = ['cargo', 'test', '--offline', '-p', crate, '--lib', '--', '--nocapture', '--test-threads', str(registry.JOBS)] + names
+    t0 = time.time()
     try:
         p = subprocess.run(cmd, cwd=ws, env=env, capture_output=True, text=True, timeout=registry.KANI_TOTAL_TIMEOUT[tier])
     except subprocess.TimeoutExpired:
-        return None, 'playback timed out'
-    out = p.stdout
-    m = re.search(r'```\s*\n(.*?#\[test\].*?)```', out, re.S)
-    if not m:
-        m = re.search(r'(/// Test generated for harness.*?\n}\n)', out, re.S)
-    trace = []
+        res['status'] = 'undecided'
+        res['hard'].append(dict(kind='timeout', msg='native tests timed out'))
+        return res
+    res['wall_s'] = round(time.time() - t0, 1)
+    res['cmd'] = 'cargo test --offline -p %s --lib -- --nocapture %s   (scratch copy of /repo with the test module appended)' % (crate, ' '.join(names))
+    out = p.stdout + '\n' + p.stderr
+    seen = set()
     for ln in out.splitlines():
-        if ln.startswith('Failed Checks:') or ln.strip().startswith('File:'):
-            trace.append(ln)
-    return (m.group(1) if m else None), '\n'.join(trace)
+        m = re.match(r'VERIF-OBLIGATION (\S+) props=(\S+) bound="([^"]*)" cases=(\d+) ok', ln)
+        if m:
+            res['tests'].append(dict(name=m.group(1), props=m.group(2).split(','), bound=m.group(3), cases=int(m.group(4)), ok=True))
+            seen.add(m.group(1))
+            continue
+        m = re.match(r'VERIF-FAIL (\S+) props=(\S+) (.*)', ln)
+        if m:
+            res['tests'].append(dict(name=m.group(1), props=m.group(2).split(','), ok=False, detail=m.group(3)))
+            res['failures'].append(dict(name=m.group(1), props=m.group(2).split(','), cls='P', desc=m.group(3), concrete=dict(native_failing_input=m.group(3))))
+    ran = re.findall(r'^test (\S+) \.\.\. (ok|FAILED)', out, re.M)
+    if len(ran) < len(names) and not res['failures']:
+        tail = '\n'.join([l for l in out.splitlines() if 'error' in l][:15])
+        res['hard'].append(dict(kind='build', msg='native tests did not run (%d of %d): %s %s' % (len(ran), len(names), tail, out[-800:])))
+    for (tn, st_) in ran:
+        if st_ == 'FAILED' and not any(tn.endswith(x['name'].split('#')[0]) for x in res['failures']) and not res['failures']:
+            res['failures'].append(dict(name='native:' + tn, props=None, cls='P', desc='test failed/panicked: ' + tn, concrete=dict(native_failing_input=out[-1500:])))
+    res['meta'] = metas
+    if res['failures']:
+        res['status'] = 'failed'
+    elif res['hard']:
+        res['status'] = 'undecided'
+    return res
 
 
 # ---------------------------------------------------------------------------------------------
@@ -496,6 +671,12 @@ def main():
         log('[%s]   %s: %d harnesses, %d failing obligations, %d hard errors, %.1fs' % (prop, crate, len(r['harnesses']), len(r['failures']), len(r['hard']), r.get('wall_s', 0)))
         results.append(r)
 
+    for crate in cfg.get('native', []):
+        log('[%s] native bounded stand-ins in %s ...' % (prop, crate))
+        r = native_crate(crate, prop, tier, scratch)
+        log('[%s]   %s: %d tests, %d failing obligations, %d hard errors, %.1fs' % (prop, crate, len(r['tests']), len(r['failures']), len(r['hard']), r.get('wall_s', 0)))
+        results.append(r)
+
     known = load_known()
     violations = []
     known_hits = []
@@ -532,20 +713,35 @@ def main():
                 found = confirm(REPO, scratch, seed, tier)
                 if found:
                     violations.append((dict(unit=unit, engine='native-search'), dict(name=unit + '#confirm', desc=found['desc'], cls='P', concrete=found)))
+    uniq = {}
+    for (r, f) in violations:
+        uniq.setdefault(f['name'], (r, f))
+    violations = list(uniq.values())
+    confirmed = {}
+    kani_viol = {}
+    for (r, f) in violations:
+        if r.get('engine') == 'kani' and f.get('full'):
+            kani_viol.setdefault(r['unit'].split(':', 1)[1], []).append(f)
+    for crate, fl in kani_viol.items():
+        log('[%s] replaying %d failing obligation(s) of %s on the real code (concrete playback) ...' % (prop, len(fl), crate))
+        confirmed.update(kani_confirm(crate, fl, scratch, tier))
     for (r, f) in violations:
         rp = os.path.join(VERIF, 'replays', '%s-%s.txt' % (prop, hashlib.sha1(f['name'].encode()).hexdigest()[:10]))
         body = ['property: %s' % prop, 'failed obligation: %s' % f['name'], 'unit: %s (%s)' % (r['unit'], r.get('engine')), '']
         concrete = None
         if r.get('engine') == 'kani' and f.get('full'):
-            test, trace = kani_playback(r['unit'].split(':', 1)[1], f, scratch, tier)
-            body += ['failed check: %s' % f.get('desc'), 'location: %s' % f.get('location'), '']
-            if test:
-                concrete = test
-                body += ['concrete counterexample (Kani concrete playback; the values below drive the real function in the harness %s):' % f['harness'], test, '']
-                body += ['replay: apply the same change to a scratch copy, paste the test into the module the harness is included in and run',
-                         '        cargo kani playback -Z concrete-playback -p <crate> -- <test name>', '']
+            body += ['failed check: %s' % f.get('desc'), 'location: %s' % f.get('location'), 'harness: %s' % f['full'], '']
+            c = confirmed.get(f['name'])
+            if c:
+                body += ['counterexample found by CBMC (Kani concrete playback): the byte vectors are the values of the kani::any() calls of the harness, in order',
+                         c['test'], '']
+                if c.get('native'):
+                    concrete = c
+                    body += ['replayed natively against the real crate code (cargo kani playback, scratch copy of /repo): the same obligation fails at run time:', c['native'], '']
+                else:
+                    body += ['native replay of the counterexample did not reproduce the failure (or did not finish)', '']
             else:
-                body += ['no concrete values could be extracted from the verifier (%s)' % (trace or 'no trace'), '']
+                body += ['no concrete values extracted (playback limited to the first 3 failing harnesses, or playback timed out)', '']
         elif f.get('concrete'):
             concrete = f['concrete']
             body += ['concrete failing script found by native search on the real code:', json.dumps(f['concrete'], indent=1), '']
@@ -616,6 +812,15 @@ def write_evidence(prop, tier, seed, cfg, results, violations, known_hits, undec
             dropped += [dict(unit=r['unit'], **x) for x in (w.get('rewrites') or [])]
             solver_time[r['unit']] = dict(smt_s=r.get('solver_time_s'), verus_total_s=r.get('total_time_s'))
             per_unit.append(dict(unit=r['unit'], engine='verus', verified_functions=r.get('verified_fns'), errors=r.get('errors'), canary=r.get('canary'), wall_s=r.get('wall_s')))
+        elif r['engine'] == 'native':
+            for t in r.get('tests', []):
+                obligations += 1
+                if t.get('ok'):
+                    discharged += 1
+                    bounded += 1
+                fns.append(dict(file=None, fn=t['name'].split('#')[0], engine='native exhaustive enumeration', status='bounded(%s)' % t.get('bound', ''), cases=t.get('cases')))
+                samples.append(dict(obligation=t['name'], engine='native exhaustive enumeration (bounded stand-in)', bound=t.get('bound'), cases=t.get('cases')))
+            per_unit.append(dict(unit=r['unit'], engine='native', tests=len(r.get('tests', [])), wall_s=r.get('wall_s')))
         else:
             for h in r.get('harnesses', []):
                 nfail = h['failed']
